@@ -2,6 +2,8 @@ package main
 
 func controlsC19() []Control {
 	return []Control{
+		{Name: "thinking timer re-created when the runner is attached", Expect: "R5", Mutate: replaceIn("(*playerRunner).SetActor", "\tpr.actor = a\n", "\tpr.actor = a\n\tpr.timebank = timebank.NewTimeBank()\n", 0)},
+		{Name: "every view cancels the pending auto-play", Expect: "R5", Mutate: replaceIn("(*playerRunner).UpdateTableState", "\tpr.tableInfo = table\n", "\tpr.tableInfo = table\n\tpr.timebank.Cancel()\n", 0)},
 		{Name: "automation calls instead of checking", Expect: "R1", Mutate: replaceIn("(*playerRunner).automate", "return pr.actions.Check()", "return pr.actions.Call()", 0)},
 		{Name: "automation runs immediately for a running player", Expect: "R4", Mutate: replaceIn("(*playerRunner).requestMove", "\t// Setup timebank to wait for player\n", "\tpr.automate(gs, playerIdx)\n", 0)},
 		{Name: "automation pays twice the big blind", Expect: "R3", Mutate: replaceIn("(*playerRunner).automate", "return pr.actions.Pay(gs.Meta.Blind.BB)", "return pr.actions.Pay(gs.Meta.Blind.BB * 2)", 0)},
